@@ -465,6 +465,21 @@ class GenericInterp(Interp):
                     self.fields[tgtn.decl.get('name')] = vals[1]
                     return vals[1]
             name = cal.get('q') if not n.get('member') else cal.get('name')
+            # out-parameters: a local passed by non-const reference is (re)defined by the call
+            from .sem import split_sig
+            ptypes = split_sig(cal.get('sig', '()'))
+            argn = real_args(n)
+            off = len(n.c) - len(argn)
+            for i, a in enumerate(argn):
+                if a is None or i >= len(ptypes):
+                    continue
+                pt = ptypes[i]
+                if pt.endswith('&') and not pt.endswith('&&') and not pt.startswith('const '):
+                    an = unwrap(a)
+                    if an.k == 'ref' and an.decl.get('kind') in LOCAL_KINDS:
+                        ins = tuple(v for j, v in enumerate(vals[off:]) if j != i and j < len(ptypes) and
+                                    (ptypes[j].startswith('const ') or not ptypes[j].endswith('&')))
+                        env[an.decl['lid']] = Opaque(('out', name, i) + ins)
             if self.watch(n):
                 self.log.append((cal.get('name'),) + vals)
             if cal.get('kind') == 'conv' and cal.get('ret') == 'bool':
